@@ -8,6 +8,7 @@
    NOT PROVED (full statement: transform_row = spec_convert for every row): the per-row loops (unpack_bits, colour-key comparison, 16-bit strip);
    they are modelled (Model/Transform.v), specified (Spec/TransformSpec.v) and decided on every run by model = implementation = reference conversion. *)
 From PngV Require Import Base.Bytes Spec.TransformSpec Model.Transform Proofs.TransformProofs.
+From PngV Require Import Proofs.TransformRows.
 
 (* (1) advertised colour type / bit depth *)
 Theorem C08_output_type_is_documented :
@@ -43,6 +44,56 @@ Theorem C08_palette_copy_invariant :
          copy_palette fuel (skipn (3 * k) pal0) k tab = Ok tab' /\ copied pal0 (k + m) tab'.
 Proof. exact copy_palette_spec. Qed.
 
+(* 8-bit grey / RGB with tRNS or ALPHA: the kernel's output row is the documented conversion, for every width and content *)
+Theorem C08_rows_8bit_colour_key_or_alpha :
+  forall (color : Z) (pal trns : option (list Z)) (t : Z) (w : nat) (row old : list Z),
+       color = 0 \/ color = 2 ->
+       s_expand t = true ->
+       present trns || s_alpha t = true ->
+       length row = (w * Z.to_nat (nsamples color))%nat ->
+       length old = (w * S (Z.to_nat (nsamples color)))%nat ->
+       transform_row {| t_color := color; t_depth := 8; t_palette := pal; t_trns := trns |} t row old =
+       TROk (spec_convert color 8 pal trns t (Z.of_nat w) row).
+Proof. exact trns8_correct. Qed.
+
+(* 16-bit grey / RGB with tRNS or ALPHA, with and without STRIP_16 *)
+Theorem C08_rows_16bit_colour_key_or_alpha :
+  forall (color : Z) (pal trns : option (list Z)) (t : Z) (w : nat) (row old : list Z),
+       color = 0 \/ color = 2 ->
+       bytes_ok row ->
+       s_expand t = true ->
+       present trns || s_alpha t = true ->
+       length row = (w * (Z.to_nat (nsamples color) * 2))%nat ->
+       length old =
+       (w * (if s_strip t then S (Z.to_nat (nsamples color)) else Z.to_nat (nsamples color) * 2 + 2))%nat ->
+       transform_row {| t_color := color; t_depth := 16; t_palette := pal; t_trns := trns |} t row old =
+       TROk (spec_convert color 16 pal trns t (Z.of_nat w) row).
+Proof. exact trns16_correct. Qed.
+
+(* STRIP_16 on 16-bit grey / grey-alpha / RGB / RGBA without added alpha *)
+Theorem C08_rows_strip16 :
+  forall (color : Z) (pal trns : option (list Z)) (t : Z) (w : nat) (row old : list Z),
+       color = 0 \/ color = 2 \/ color = 4 \/ color = 6 ->
+       bytes_ok row ->
+       s_strip t = true ->
+       s_expand t && (present trns || s_alpha t) && ((color =? 0) || (color =? 2)) = false ->
+       length row = (w * Z.to_nat (nsamples color) * 2)%nat ->
+       length old = (w * Z.to_nat (nsamples color))%nat ->
+       transform_row {| t_color := color; t_depth := 16; t_palette := pal; t_trns := trns |} t row old =
+       TROk (spec_convert color 16 pal trns t (Z.of_nat w) row).
+Proof. exact strip16_correct. Qed.
+
+(* whenever no documented change applies (any colour type, depth, flags) the row is returned unchanged *)
+Theorem C08_rows_unchanged :
+  forall (color depth : Z) (pal trns : option (list Z)) (t w : Z) (row old : list Z),
+       (color =? 3) && s_expand t || ((color =? 0) || (color =? 4)) && (depth <? 8) && s_expand t
+       || ((color =? 0) || (color =? 2)) && s_expand t && (present trns || s_alpha t)
+       || (depth =? 16) && s_strip t = false ->
+       length old = length row ->
+       transform_row {| t_color := color; t_depth := depth; t_palette := pal; t_trns := trns |} t row old =
+       TROk (spec_convert color depth pal trns t w row).
+Proof. exact copy_correct. Qed.
+
 (* ---- non-vacuity: 2-entry palette + incomplete third entry, 1-byte tRNS; 1-bit indexed row expanded with alpha *)
 Example C08_nonvacuous :
   transform_row (mk_tinfo 3 1 (Some [10; 20; 30; 40; 50; 60; 70]) (Some [9])) 16 [160] (repeatz 0 12)
@@ -53,3 +104,7 @@ Print Assumptions C08_output_type_is_documented.
 Print Assumptions C08_line_size_is_packed_size.
 Print Assumptions C08_palette_table_is_documented_palette.
 Print Assumptions C08_palette_copy_invariant.
+Print Assumptions C08_rows_8bit_colour_key_or_alpha.
+Print Assumptions C08_rows_16bit_colour_key_or_alpha.
+Print Assumptions C08_rows_strip16.
+Print Assumptions C08_rows_unchanged.
